@@ -689,6 +689,10 @@ func (ls *LState) raiseError(level int, format string, args ...interface{}) {
 			lv = level
 		}
 		pos := ls.where(lv, true)
+		if dbg, ok := ls.GetStack(lv); ok && level > 1 && dbg.frame.Fn.IsG {
+			// an explicit level names one function: as in luaL_where a Go function has no position
+			pos = ""
+		}
 		if len(pos) > 0 {
 			// a level without a position (beyond the stack, a tail call) adds nothing, not even the blank
 			message = fmt.Sprintf("%v %v", pos, message)
